@@ -1209,6 +1209,19 @@ pub fn run_c14(cfg: &Config) -> i32 {
 			"9007199254740992", "9007199254740993", "9007199254740994", "9007199254740993.0", "9223372036854775806", "9223372036854775807", "9223372036854775808", "9223372036854775809", "-9223372036854775808", "-9223372036854775809",
 			"18446744073709551615", "18446744073709551616", "18446744073709551617", "1e400", "1E400", "2e400", "1e-400", "2e-400", "123456789012345678901234567890", "123456789012345678901234567891",
 		];
+		let mut nums: Vec<String> = nums.iter().map(|x| x.to_string()).collect();
+		// both signs of the neighbourhoods where integers stop being exact as doubles / as i64 / as u64,
+		// each as an integer, with a fraction and with an exponent
+		for base in [9007199254740992u128, 9223372036854775806, 18446744073709551614] {
+			for sign in ["", "-"] {
+				for x in [format!("{}", base), format!("{}", base + 1), format!("{}", base + 2), format!("{}.0", base), format!("{}.5", base), format!("{}.0", base + 1), format!("{}e0", base)] {
+					let t = format!("{}{}", sign, x);
+					if !nums.contains(&t) {
+						nums.push(t);
+					}
+				}
+			}
+		}
 		let mut rvals: Vec<RVal> = nums.iter().map(|x| RVal::Num(x.to_string())).collect();
 		for x in nums.iter().step_by(3) {
 			rvals.push(RVal::Arr(vec![RVal::Num(x.to_string())]));
